@@ -156,7 +156,7 @@ def run(ctx, deep=False):
     fixed = [("finding:" + k, r, K.replay_case(r)[1], [], 0, []) for k, r in corpus()]
     if fixed:
         evaluate(ctx, fixed, check_tables=False)
-    cases = K.run_random("C31", ctx.seed, "deep" if deep else ctx.tier, 32 if thorough else 10, 500 if thorough else 280,
+    cases = K.run_random("C31", ctx.seed, "deep" if deep else ctx.tier, 72 if thorough else 10, 500 if thorough else 280,
                          (4, 12) if thorough else (3, 8), capture=True, procs=int(os.environ.get("VERIF_PROCS", "6")))
     evaluate(ctx, cases)
 
